@@ -276,6 +276,7 @@ def gen_digits(src):
         rest = re.sub(r'\s*(-?\d+|[iu]\d+::MIN|[iu]\d+::MAX)\s*\.\.=\s*(-?\d+|[iu]\d+::MIN|[iu]\d+::MAX)\s*=>\s*(\d+)\s*,', '', arms).strip()
         if rest:
             die(f"DigitCount for {ty}: unparsed arm text {rest[:60]!r}")
+        rows.sort(key=lambda r: r[0])     # a `match` on disjoint ranges does not depend on the order of its arms
         out.append(f"Definition digit_table_{ty} : list (Z * Z * N) :=")
         out.append("  [" + "; ".join(f"(({lo})%Z, ({hi})%Z, {k})" for lo, hi, k in rows) + "].")
     # usize / isize delegate
